@@ -172,6 +172,16 @@ def try_replay(e, mod, target, kind, ob, seed, oids=None):
     names = list(e.input_vars)
 
     def run(decoded, via):
+        info = run_once(decoded, via, False)
+        if con.oneshot and info.get("contract_ok", True):
+            # the same input once more with the one-shot parameters handed over as iterators (the contract is evaluated over the
+            # sequence of elements the iterator yields)
+            info2 = run_once(decoded, via + "+one-shot-iterator", True)
+            if not info2.get("contract_ok", True):
+                return info2
+        return info
+
+    def run_once(decoded, via, as_iterators):
         ctx = rp.Ctx(e)
         args = {}
         saved_globals = []
@@ -187,12 +197,21 @@ def try_replay(e, mod, target, kind, ob, seed, oids=None):
                 continue
             args[nme] = val
         call = native
+
+        def shots(kw):
+            if as_iterators:
+                for p_ in con.oneshot:
+                    if kw.get(p_) is not None:
+                        kw[p_] = iter(list(kw[p_]))
+            return kw
+        if as_iterators:
+            call = lambda **kw: native(**shots(kw))    # noqa: E731
         try:
             if "self" in args and not getattr(mod, "NATIVE", {}).get(target):
                 slf = args.pop("self")
                 meth = target.split("@")[0].split(":")[1].rsplit(".", 1)[1]
                 bound = getattr(slf, meth)
-                info = rp.native_check(target, con, {**args, "self": slf}, lambda self=None, **kw: bound(**kw))
+                info = rp.native_check(target, con, {**args, "self": slf}, lambda self=None, **kw: bound(**shots(kw)))
             else:
                 info = rp.native_check(target, con, args, call)
         finally:
